@@ -132,6 +132,15 @@ type TLSServerConfig struct {
 	KeyFile string
 }
 
+// redactData returns the value of a flag that takes a file path or inline data
+// in a form fit for logging: a data: URI may carry key material, it is replaced as a whole.
+func redactData(s string) string {
+	if strings.HasPrefix(s, "data:") {
+		return "data:xxxxx"
+	}
+	return s
+}
+
 func (c *TLSServerConfig) ConfigureTLSConfig(tlsCfg *tls.Config) error {
 	if err := c.loadCertificate(tlsCfg); err != nil {
 		return fmt.Errorf("load certificate: %w", err)
